@@ -25,9 +25,9 @@ func Walk(node Node, f func(Node) bool) {
 		walkComments(node.Last, f)
 	case *Comment:
 	case *Stmt:
-		for _, c := range node.Comments {
+		for i, c := range node.Comments {
 			if !node.End().After(c.Pos()) {
-				defer Walk(&c, f)
+				defer walkComments(node.Comments[i:], f)
 				break
 			}
 			Walk(&c, f)
@@ -98,6 +98,7 @@ func Walk(node Node, f func(Node) bool) {
 		walkNilable(node.Param, f)
 		walkNilable(node.NestedParam, f)
 		walkNilable(node.Index, f)
+		walkList(node.Modifiers, f)
 		if node.Slice != nil {
 			walkNilable(node.Slice.Offset, f)
 			walkNilable(node.Slice.Length, f)
@@ -137,9 +138,9 @@ func Walk(node Node, f func(Node) bool) {
 		walkList(node.Items, f)
 		walkComments(node.Last, f)
 	case *CaseItem:
-		for _, c := range node.Comments {
+		for i, c := range node.Comments {
 			if c.Pos().After(node.Pos()) {
-				defer Walk(&c, f)
+				defer walkComments(node.Comments[i:], f)
 				break
 			}
 			Walk(&c, f)
@@ -150,14 +151,15 @@ func Walk(node Node, f func(Node) bool) {
 	case *TestClause:
 		Walk(node.X, f)
 	case *DeclClause:
+		walkNilable(node.Variant, f)
 		walkList(node.Args, f)
 	case *ArrayExpr:
 		walkList(node.Elems, f)
 		walkComments(node.Last, f)
 	case *ArrayElem:
-		for _, c := range node.Comments {
+		for i, c := range node.Comments {
 			if c.Pos().After(node.Pos()) {
-				defer Walk(&c, f)
+				defer walkComments(node.Comments[i:], f)
 				break
 			}
 			Walk(&c, f)
